@@ -448,6 +448,69 @@ func c06OAuthIR(r *Repo, w *Lean) error {
 	return nil
 }
 
+// c06ReloadIR: module Gen.FactsC06ReloadIR — Validator.reload / Init / Inherit: every configured component of a generation is
+// constructed afresh (nothing is taken from the previous generation: its user cache is closed by Pipeline.Inherit).
+func c06ReloadIR(r *Repo, w *Lean) error {
+	c06Header(w)
+	s := c06Base("validatorReloadIR", "(hd jw sg oa ba : Bool)", []string{"hd", "jw", "sg", "oa", "ba"}, "Bool × Bool × Bool × Bool × Bool")
+	s.Recv = irTerm{"()", "V2"}
+	s.LeanTy["V2"], s.LeanTy["VSpec"], s.LeanTy["OptU"], s.LeanTy["SubSpec"], s.LeanTy["Super"] = "Unit", "Unit", "Option Unit", "Option Unit", "Unit"
+	s.State = []irLet{{"f_headers", "Bool", "false"}, {"f_jwt", "Bool", "false"}, {"f_signer", "Bool", "false"},
+		{"f_oauth2", "Bool", "false"}, {"f_basic", "Bool", "false"}}
+	opt := func(b string) string { return "(if " + b + " then some () else none)" }
+	s.Fields = map[string]irField{
+		"V2.spec":         {Fmt: "()", Ty: "VSpec"},
+		"VSpec.Headers":   {Fmt: opt("hd"), Ty: "OptU"},
+		"VSpec.JWT":       {Fmt: opt("jw"), Ty: "OptU"},
+		"VSpec.Signature": {Fmt: opt("sg"), Ty: "OptU"},
+		"VSpec.OAuth2":    {Fmt: opt("oa"), Ty: "OptU"},
+		"VSpec.BasicAuth": {Fmt: opt("ba"), Ty: "OptU"},
+		"V2.headers":      {Fmt: "f_headers", Ty: "Bool", State: true},
+		"V2.jwt":          {Fmt: "f_jwt", Ty: "Bool", State: true},
+		"V2.signer":       {Fmt: "f_signer", Ty: "Bool", State: true},
+		"V2.oauth2":       {Fmt: "f_oauth2", Ty: "Bool", State: true},
+		"V2.basicAuth":    {Fmt: "f_basic", Ty: "Bool", State: true},
+	}
+	s.Methods["VSpec.Super"] = irCall{Fmt: "()", Ty: "Super", NArgs: 0}
+	// constructors: `true` = a freshly built component
+	s.Funcs["httpheader.NewValidator"] = irCall{Fmt: "true", Ty: "Bool", NArgs: 1}
+	s.Funcs["NewJWTValidator"] = irCall{Fmt: "true", Ty: "Bool", NArgs: 1}
+	s.Funcs["signer.CreateFromSpec"] = irCall{Fmt: "true", Ty: "Bool", NArgs: 1}
+	s.Funcs["NewOAuth2Validator"] = irCall{Fmt: "true", Ty: "Bool", NArgs: 1}
+	s.Funcs["NewBasicAuthValidator"] = irCall{Fmt: "true", Ty: "Bool", NArgs: 2}
+	s.Ret = func(v []irTerm) (string, error) {
+		if len(v) != 0 {
+			return "", errUnsupportedReturn
+		}
+		return "(f_headers, f_jwt, f_signer, f_oauth2, f_basic)", nil
+	}
+	if err := irEmit(r, w, c06Valid, "Validator", "reload", s,
+		"Result: which components were constructed by their constructor (`true` = fresh); `hd … ba` = the spec sections present."); err != nil {
+		return err
+	}
+	for _, fn := range []string{"Init", "Inherit"} {
+		g := c06Base("validator"+fn+"IR", "(u : Unit)", []string{"u"}, "Bool")
+		g.Recv = irTerm{"()", "V2"}
+		g.LeanTy["V2"] = "Unit"
+		if fn == "Inherit" {
+			g.Params = []irTerm{{"", ""}} // the previous generation must not be used
+		}
+		g.State = []irLet{{"reloaded", "Bool", "false"}}
+		g.StmtMethods = map[string]irStmtCall{"V2.reload": {NArgs: 0, Lets: []irLet{{"reloaded", "Bool", "true"}}}}
+		g.Ret = func(v []irTerm) (string, error) {
+			if len(v) != 0 {
+				return "", errUnsupportedReturn
+			}
+			return "reloaded", nil
+		}
+		if err := irEmit(r, w, c06Valid, "Validator", fn, g,
+			"Result: `v.reload()` (no argument) was called; the previous generation is not mentioned."); err != nil {
+			return err
+		}
+	}
+	return nil
+}
+
 // c06DerefHook: `*p` for p of type "&T" is a T (value copy); `x.(*httpprot.Request)` of the context's request.
 func c06DerefHook(t *irT, e ast.Expr, env *irEnv) (irTerm, bool, error) {
 	switch x := e.(type) {
@@ -664,4 +727,5 @@ func init() {
 	register(Extractor{Module: "FactsC06HandleIR", Imports: imp, Run: c06HandleIR})
 	register(Extractor{Module: "FactsC06HdrIR", Imports: imp, Run: c06HdrIR})
 	register(Extractor{Module: "FactsC06OAuthIR", Imports: imp, Run: c06OAuthIR})
+	register(Extractor{Module: "FactsC06ReloadIR", Imports: imp, Run: c06ReloadIR})
 }
